@@ -91,15 +91,21 @@ class Model:
         return MDS(kw.get("name", "_"), dict(kw["components"]), self.roles)
 
     # -- the two implementations of DS op DS ---------------------------------------------------------------------
-    def interpreter_binary(self, op_cls: str, left: MDS, right: MDS) -> Tuple[str, Any]:
+    def interpreter_binary(self, op_cls: str, left: MDS, right: MDS, full: bool = False) -> Tuple[str, Any]:
+        """full=True: the operator's own type_validation and apply_return_type_dataset are evaluated too (types, renaming of a
+        mono-measure, nullability of the result measure)"""
         f = self.P.func("vtlengine.Operators.Binary.dataset_validation")
         ext: Dict[str, Callable[..., Any]] = {
             "VirtualCounter._new_ds_name": lambda: "__VDS__",
             "copy": lambda x: MComp(x.name, x.role, x.data_type, x.nullable) if isinstance(x, MComp) else x,
             "Dataset": self.mk_dataset,
-            "cls.type_validation": lambda a, b: a,
-            "cls.apply_return_type_dataset": lambda *a: None,
         }
+        if full:
+            ext["Component"] = lambda **kw: MComp(kw["name"], kw["role"], kw.get("data_type"), kw.get("nullable", True))
+            ext["isinstance"] = _isinstance
+        else:
+            ext["cls.type_validation"] = lambda a, b: a
+            ext["cls.apply_return_type_dataset"] = lambda *a: None
         it = Interp(self.P, externals=ext)
         try:
             res = it.call(f, {"left_operand": left, "right_operand": right}, bound_cls=ClassVal(op_cls))
@@ -125,6 +131,7 @@ class Model:
 BINARY_SHAPES: List[Tuple[str, List[str], List[str], List[str], List[str]]] = [
     # label, left ids, right ids, left measures, right measures
     ("equal-ids", ["A"], ["A"], ["M"], ["M"]),
+    ("measures-declared-in-another-order", ["A"], ["A"], ["M", "N"], ["N", "M"]),
     ("equal-ids-2", ["A", "B"], ["A", "B"], ["M", "N"], ["M", "N"]),
     ("left-superset", ["A", "B"], ["A"], ["M"], ["M"]),
     ("right-superset", ["A"], ["A", "B"], ["M"], ["M"]),
